@@ -19,7 +19,7 @@ func init() {
 		Explanation: "SEE/PATH/STRUCT plumbing rules (contents of wildcard expansions belong to C13–C15; the PREF64 round-up-to-8 arithmetic is NOT decided): R-C01-1 every RA header field is the like-named configuration field, which is the like-named TOML key (nothing else is set); " +
 			"R-C01-2 on no CFG path of parsePlugins is a plugin of a later kind appended before one of an earlier kind (order prefixes, routes, RDNSS, DNSSL, MTU, source LLA, captive portal, PREF64), and every plugin type has a place in the order; " +
 			"R-C01-3 each plugin's Apply appends only its own NDP option type with fields from the like-named plugin fields (LLA direction Source; static servers after the wildcard server); R-C01-4 the Apply call graph never writes plugin state, configuration or globals, touches only ra.Options, and uses no map iteration or randomness (so rebuilding yields the same RA); " +
-			"R-C01-5 the only RA constructor is Interface.RouterAdvertisement and the only sender is Advertiser.send with buildRA's result R-C01-3 also decides the PREF64 arithmetic structurally (A = 3·maxInterval, rounding test (A % 8s) > 0, rounded A + (8s − A % 8s), cap 65528s) and that DNSSL names are stored in wire form; R-C01-6 every interface of a names group is the result of its own parseInterface call (own plugin instances); the wildcard rule sets of C13, C14 and C15 are evaluated here as shared rules; R-C01-7 no slice that is re-sliced and refilled on each loop iteration in the plugin/config packages is referenced by a stored value (scratch-buffer aliasing between options). R-C01-8 Prepare (run on every re-dial) stores only to interface-derived plugin state: never to a field that package config or a New* constructor sets, never to a plugin's whole value. R-C01-5 also: every path of buildRA that returns without error returns result #0 of the one Interface.RouterAdvertisement call made on that path (no RA is remembered between calls).",
+			"R-C01-5 the only RA constructor is Interface.RouterAdvertisement and the only sender is Advertiser.send with buildRA's result R-C01-3 also decides the PREF64 arithmetic structurally (A = 3·maxInterval, rounding test (A % 8s) > 0, rounded A + (8s − A % 8s), cap 65528s) and that DNSSL names are stored in wire form; R-C01-6 every interface of a names group is the result of its own parseInterface call (own plugin instances); the wildcard rule sets of C13, C14 and C15 are evaluated here as shared rules; R-C01-7 no slice that is re-sliced and refilled on each loop iteration in the plugin/config packages is referenced by a stored value (scratch-buffer aliasing between options). R-C01-8 Prepare (run on every re-dial) stores only to interface-derived plugin state: never to a field that package config or a New* constructor sets, never to a plugin's whole value. R-C01-5 also: every path of buildRA that returns without error returns result #0 of the one Interface.RouterAdvertisement call made on that path (no RA is remembered between calls). R-C01-8 also: every path of the advertiser's dial callback that goes on to transmit has gone through the loop that calls Plugin.Prepare.",
 		Assumptions: []string{"Go type checker and go/ssa construction are correct", "ndp option constructors copy their arguments as documented"},
 		NotCovered:  []string{"contents of wildcard expansions (C13–C15)", "the PREF64 round-up-to-a-multiple-of-8 arithmetic (only its range, C03)", "equality of two successive RAs when system state changes in between (not required)"},
 		Run:         runC01,
